@@ -198,6 +198,61 @@ fn scenario(out: &mut Out, rng: &mut Sm, bits: usize, exhaustive: bool) {
     }
 }
 
+/// one `Idpf` object used for many reports: key generation and evaluation must depend only on their
+/// arguments (context, nonce, keys), not on what the object processed before
+fn reuse_cases(out: &mut Out, rng: &mut Sm, thorough: bool) {
+    let idpf: Idpf<VI, VL> = Idpf::new((), ());
+    let c1 = rng.bytes(4);
+    let c2 = rng.bytes(4);
+    let n1 = rng.bytes(16);
+    let n2 = rng.bytes(16);
+    let mut seq: Vec<(&Vec<u8>, &Vec<u8>)> = vec![(&c1, &n1), (&c1, &n2), (&c2, &n2), (&c2, &n1), (&c1, &n1)];
+    if thorough {
+        seq.extend([(&c2, &n2), (&c1, &n2), (&c1, &n1), (&c2, &n1)]);
+    }
+    for (step, (ctx, nonce)) in seq.into_iter().enumerate() {
+        let bits = 1 + (step % 3);
+        let alpha: Vec<bool> = (0..bits).map(|_| rng.below(2) == 1).collect();
+        let inner: Vec<VI> = (0..bits - 1).map(|_| Poplar1IdpfValue::new([rand_f64(rng), rand_f64(rng)])).collect();
+        let leaf: VL = Poplar1IdpfValue::new([rand_f255(rng), rand_f255(rng)]);
+        let Ok((public, keys)) = idpf.gen(&IdpfInput::from_bools(&alpha), inner.clone(), leaf, ctx, nonce) else {
+            out.oracle(false, || format!("idpf reuse step {}", step), || "gen failed".into());
+            continue;
+        };
+        for len in 1..=bits {
+            for v in 0..(1u32 << len) {
+                let p: Vec<bool> = (0..len).map(|i| (v >> (len - 1 - i)) & 1 == 1).collect();
+                let r0 = idpf.eval(0, &public, &keys[0], &IdpfInput::from_bools(&p), ctx, nonce, &mut NoCache::new());
+                let r1 = idpf.eval(1, &public, &keys[1], &IdpfInput::from_bools(&p), ctx, nonce, &mut NoCache::new());
+                let on_path = p[..] == alpha[..len];
+                let ok = match (r0, r1) {
+                    (Ok(IdpfOutputShare::Inner(a)), Ok(IdpfOutputShare::Inner(b))) => {
+                        let want = if on_path { enc(&inner[len - 1]) } else { enc(&Poplar1IdpfValue::new([Field64::zero(), Field64::zero()])) };
+                        let (ea, eb) = (enc(&a), enc(&b));
+                        let d = |h: &[u8], i: usize| Field64::try_from(&h[8 * i..8 * i + 8]).unwrap();
+                        let mut got = vec![];
+                        (d(&ea, 0) + d(&eb, 0)).encode(&mut got).unwrap();
+                        (d(&ea, 1) + d(&eb, 1)).encode(&mut got).unwrap();
+                        got == want
+                    }
+                    (Ok(IdpfOutputShare::Leaf(a)), Ok(IdpfOutputShare::Leaf(b))) => {
+                        let want = if on_path { enc(&leaf) } else { enc(&Poplar1IdpfValue::new([Field255::zero(), Field255::zero()])) };
+                        let (ea, eb) = (enc(&a), enc(&b));
+                        let d = |h: &[u8], i: usize| Field255::try_from(&h[32 * i..32 * i + 32]).unwrap();
+                        let mut got = vec![];
+                        (d(&ea, 0) + d(&eb, 0)).encode(&mut got).unwrap();
+                        (d(&ea, 1) + d(&eb, 1)).encode(&mut got).unwrap();
+                        got == want
+                    }
+                    _ => false,
+                };
+                out.oracle(ok, || format!("idpf reuse: report {} through one Idpf object (ctx={} nonce={}) prefix={}", step, hex(ctx), hex(nonce), bits_str(&p)), || "shares do not add up to the programmed point function".into());
+            }
+        }
+        out.count("idpf.reuse");
+    }
+}
+
 pub fn run(out: &mut Out, thorough: bool, seed: u64) {
     let mut rng = Sm::new(seed ^ 0xC06);
     // exhaustive over all prefixes of all lengths for small bit lengths, in shuffled order
@@ -211,6 +266,7 @@ pub fn run(out: &mut Out, thorough: bool, seed: u64) {
             scenario_plain(out, &mut rng, bits);
         }
     }
+    reuse_cases(out, &mut rng, thorough);
     for bits in [8usize, 12, 33, 64] {
         for _ in 0..(if thorough { 12 } else { 2 }) {
             scenario(out, &mut rng, bits, false);
